@@ -55,7 +55,9 @@ def _menu():
     m.append(('fnna', 'fnna', [None]))
     # lists mixing the row-dropping and the fill-up-to-the-last-observation methods with the others: every step works on the result of the step before
     for lst in (['fnna', 'ffill_na'], ['fnna', 'ffill_0'], ['nona', 'ffill'], ['fnna', 'bfill'], ['ffill', 'ffill_na'], ['bfill', 'ffill_0'],
-                ['ffill_na', 'bfill'], ['ffill_0', 'fnna'], ['ffill', 'nona'], ['ffill_na', 'nona']):
+                ['ffill_na', 'bfill'], ['ffill_0', 'fnna'], ['ffill', 'nona'], ['ffill_na', 'nona'],
+                # a row-dropping step BEFORE fnna: the rows left no longer carry the labels 0..n-1 (arrays / default integer labels)
+                ['nona', 'fnna'], ['fnna', 'fnna'], ['fnna', 'nona'], ['nona', 'ffill_0']):
         m.append(('+'.join(lst), lst, [None, 1]))
     m.append(('ffill_na', 'ffill_na', LIMITS))
     m.append(('ffill_0', 'ffill_0', LIMITS))
